@@ -26,7 +26,10 @@ EXPLANATION = (
   "apply_auto_removes reads the set before clearing it, removes under indirect_actions(), reports "
   "whether anything was removed, and apply_user_actions loops on it, recalculating after each "
   "round, until nothing is left (R3); every table is created with a raw view section that is "
-  "recorded in rawViewSectionRef (R4). Not decided: resolution of non-owning references after "
+  "recorded in rawViewSectionRef (R4); when a summary section is regrouped, the fields kept and "
+  "the fields re-pointed are found by the column ids of the OLD table's columns that are carried "
+  "over (group-by columns kept, formula columns copied), never by ids requested for or given in "
+  "the new table, so that every old field is either deleted or re-pointed (R6). Not decided: resolution of non-owning references after "
   "arbitrary cascades; the values written.")
 
 # Owning references: (parent table, accessor on the parent record, child table, child field, why
@@ -61,6 +64,7 @@ def check(run, repo, tier):
   r2_cascade(run, w)
   r3_auto_remove(run, w)
   r4_raw_section(run, w)
+  r6_regrouped_fields(run, w)
 
 
 # ------------------------------------------------------------------------------------------ R1
@@ -580,6 +584,241 @@ def r4_raw_section(run, w):
          "created", ok, fi=fn.fi)
 
 
+# ------------------------------------------------------------------------------------------ R6
+def r6_regrouped_fields(run, w):
+  R6 = run.rule("C09-R6", "update_summary_section: every field of the regrouped section is deleted "
+                "or re-pointed -- the kept set and the field look-ups use the ids of the old "
+                "table's carried-over columns", floor=2)
+  fn = H.inlined_fn(w, "summary.SummaryActions.update_summary_section")
+  cfg = fn.cfg
+  du = DefUse(fn)
+  rd = H.ReachDefs(fn, du)
+  ps = fn.fi.params()
+  p_sec = ps[1]
+  sec_is = lambda e, tail: H.canon(fn, e) == "%s.%s" % (p_sec, tail)
+  # collections of old-table columns carried over: filled in the loop over the old table's columns
+  loops = [n for n in cfg.nodes if n.kind == "for" and sec_is(n.stmt.iter, "tableRef.columns")]
+  if len(loops) != 1:
+    raise AnalysisError("update_summary_section: loop over the old table's columns not found")
+  lbody = H.nodes_of_stmts(cfg, H.stmts_under(loops[0].stmt.body))
+  carried = {nm for nm, ms in du.muts.items() if ms & lbody}
+  if len(carried) < 2:
+    raise AnalysisError("update_summary_section: the lists of kept group-by columns / copied "
+                        "formula columns not recognised")
+  # column records of the NEW table
+  new_cols = set()
+  for n in cfg.nodes:
+    if n.kind == "stmt" and isinstance(n.stmt, ast.Assign) and \
+        isinstance(n.stmt.value, ast.Call) and \
+        fn.name(n.stmt.value) == "self._get_or_create_summary":
+      for t in n.stmt.targets:
+        new_cols |= {x.id for x in ast.walk(t) if isinstance(x, ast.Name)}
+  if not new_cols:
+    raise AnalysisError("update_summary_section: _get_or_create_summary(...) result not found")
+
+  def binder_of(var, inside):
+    """(iterable expression, position or None, node id) of the comprehension generator / for
+    statement that binds local `var` around expression `inside`."""
+    best = None
+    for x in ast.walk(fn.node):
+      gens = x.generators if isinstance(x, (ast.ListComp, ast.SetComp, ast.GeneratorExp,
+                                            ast.DictComp)) else \
+          ([x] if isinstance(x, ast.For) else [])
+      if not gens or not any(y is inside for y in ast.walk(x)):
+        continue
+      for g in gens:
+        tg = g.target
+        if isinstance(tg, ast.Name) and tg.id == var:
+          best = (g.iter, None, x)
+        elif isinstance(tg, (ast.Tuple, ast.List)):
+          for i, e in enumerate(tg.elts):
+            if isinstance(e, ast.Name) and e.id == var:
+              best = (g.iter, i, x)
+    return best
+
+  def node_of(x):
+    ids = H.node_of_expr(cfg, x)
+    return min(ids) if ids else cfg.exit.id
+
+  def elem_origin(e, pos, at, depth=0):
+    """Names of the collections the elements (their component `pos` when they are tuples) of
+    iterable e come from."""
+    if depth > 8:
+      return {"?"}
+    if isinstance(e, ast.Name):
+      if e.id in carried or e.id in new_cols or e.id in ps:
+        return {e.id}
+      v, at2 = H.resolve(fn, du, rd, e, at)
+      if v is e or isinstance(v, ast.Name):
+        return {"?" + e.id}
+      return elem_origin(v, pos, at2, depth + 1)
+    if isinstance(e, ast.Call) and dotted(e.func) == "zip" and pos is not None and \
+        pos < len(e.args):
+      return elem_origin(e.args[pos], None, at, depth + 1)
+    if isinstance(e, ast.Call) and dotted(e.func) in ("list", "tuple", "sorted", "set",
+                                                       "reversed") and e.args:
+      return elem_origin(e.args[0], pos, at, depth + 1)
+    if isinstance(e, ast.BinOp) and isinstance(e.op, (ast.Add, ast.BitOr)):
+      return elem_origin(e.left, pos, at, depth + 1) | elem_origin(e.right, pos, at, depth + 1)
+    if isinstance(e, (ast.ListComp, ast.GeneratorExp, ast.SetComp)) and len(e.generators) == 1:
+      el = e.elt
+      if pos is not None and isinstance(el, ast.Tuple) and pos < len(el.elts):
+        el = el.elts[pos]
+      elif pos is not None and not isinstance(el, ast.Name):
+        return {"?"}
+      g = e.generators[0]
+      if isinstance(el, ast.Name):
+        if isinstance(g.target, ast.Name) and g.target.id == el.id:
+          return elem_origin(g.iter, pos if isinstance(e.elt, ast.Name) else None, at, depth + 1)
+        if isinstance(g.target, (ast.Tuple, ast.List)):
+          for i, t in enumerate(g.target.elts):
+            if isinstance(t, ast.Name) and t.id == el.id:
+              return elem_origin(g.iter, i, at, depth + 1)
+      if isinstance(el, ast.Attribute) and isinstance(el.value, ast.Name):
+        # ids taken from elements: same origin as the elements
+        return elem_origin(ast.ListComp(elt=el.value, generators=e.generators), pos, at, depth + 1)
+      return {"?"}
+    if isinstance(e, ast.Attribute) and isinstance(e.value, ast.Name) and e.value.id in ps:
+      return {text(e)}
+    return {"?"}
+
+  def id_origin(key, at):
+    """collections whose elements' colId the key expression is: `<v>.colId` with v bound by a
+    comprehension / loop over such a collection."""
+    key = H.expand(fn, key, pure_only=False) if isinstance(key, ast.Name) else key
+    if isinstance(key, ast.Attribute) and key.attr == "colId" and isinstance(key.value, ast.Name):
+      b = binder_of(key.value.id, key)
+      if b is None:
+        return {"?" + key.value.id}
+      return elem_origin(b[0], b[1], at)
+    return {"?"}
+
+  def classify(origins):
+    bad_new = sorted(o for o in origins if o in new_cols)
+    other = sorted(o for o in origins if o not in carried and o not in new_cols)
+    return bad_new, other
+
+  # (a) the keep set: fields whose column id is not in it are deleted
+  removes = []
+  for (n, c, nm) in fn.calls():
+    if isinstance(c.func, ast.Attribute) and c.func.attr == "remove" and \
+        fn.type_of(c.func.value) == T.DOCMODEL and len(c.args) + len(c.keywords) == 1:
+      arg = (list(c.args) + [k.value for k in c.keywords])[0]
+      v, at = H.resolve(fn, du, rd, arg, n.id)
+      if isinstance(v, (ast.ListComp, ast.GeneratorExp)) and len(v.generators) == 1 and \
+          sec_is(v.generators[0].iter, "fields"):
+        removes.append((n, v, at))
+  if len(removes) != 1:
+    raise AnalysisError("update_summary_section: removal of the fields that are not kept not "
+                        "recognised")
+  rn, rcomp, rat = removes[0]
+  fvar = text(rcomp.generators[0].target)
+  keep = None
+  for t in rcomp.generators[0].ifs:
+    t0 = t.operand if isinstance(t, ast.UnaryOp) and isinstance(t.op, ast.Not) else t
+    if isinstance(t0, ast.Compare) and len(t0.ops) == 1 and \
+        isinstance(t0.ops[0], (ast.NotIn, ast.In)) and \
+        text(t0.left) == "%s.colRef.colId" % fvar and isinstance(t0.comparators[0], ast.Name):
+      negated = isinstance(t0.ops[0], ast.NotIn) != (t0 is not t)
+      if negated:
+        keep = t0.comparators[0]
+  if keep is None or len(rcomp.generators[0].ifs) != 1:
+    raise AnalysisError("update_summary_section: filter of the deleted fields is not "
+                        "`<field>.colRef.colId not in <kept ids>`")
+  kv, kat = H.resolve(fn, du, rd, keep, rat)
+  def ids_of(e, at, depth=0):
+    if depth > 6:
+      return {"?"}
+    if isinstance(e, ast.Name):
+      v, at2 = H.resolve(fn, du, rd, e, at)
+      if v is e or isinstance(v, ast.Name):
+        return {"?" + e.id}
+      return ids_of(v, at2, depth + 1)
+    if isinstance(e, ast.Call) and dotted(e.func) in ("set", "frozenset", "list") and e.args:
+      return ids_of(e.args[0], at, depth + 1)
+    if isinstance(e, ast.BinOp) and isinstance(e.op, (ast.BitOr, ast.Add)):
+      return ids_of(e.left, at, depth + 1) | ids_of(e.right, at, depth + 1)
+    if isinstance(e, ast.Call) and isinstance(e.func, ast.Attribute) and e.func.attr == "union":
+      out = ids_of(e.func.value, at, depth + 1)
+      for a_ in e.args:
+        out |= ids_of(a_, at, depth + 1)
+      return out
+    if isinstance(e, (ast.SetComp, ast.GeneratorExp, ast.ListComp)) and len(e.generators) == 1 \
+        and isinstance(e.elt, ast.Attribute) and e.elt.attr == "colId" and \
+        isinstance(e.elt.value, ast.Name):
+      g = e.generators[0]
+      if isinstance(g.target, ast.Name) and g.target.id == e.elt.value.id:
+        return elem_origin(g.iter, None, at)
+    return {"?"}
+  origins = ids_of(kv, kat)
+  bad_new, other = classify(origins)
+  unknown = [o for o in other if o.startswith("?")]
+  if unknown and not [o for o in other if not o.startswith("?")] and not bad_new:
+    raise AnalysisError("update_summary_section: cannot tell where the kept column ids %s come "
+                        "from" % short(kv, 60))
+  ok = not bad_new and not other
+  run.ob(R6, fn.qualname, "kept ids = colIds of %s" % " + ".join(sorted(origins)),
+         "a field is kept only when its column is one actually carried over from the old table "
+         "(kept group-by column or copied formula column); a field kept for any other reason is "
+         "neither deleted nor re-pointed", ok, fi=fn.fi, node=rn.stmt,
+         witness=None if ok else "kept ids also come from %s" % ", ".join(bad_new + other))
+  # (b) look-ups of kept fields by column id
+  maps = set()
+  for n in cfg.nodes:
+    if n.kind == "stmt" and isinstance(n.stmt, ast.Assign) and len(n.stmt.targets) == 1 and \
+        isinstance(n.stmt.targets[0], ast.Name):
+      v, at = H.resolve(fn, du, rd, n.stmt.targets[0], cfg.exit.id) \
+          if isinstance(n.stmt.value, (ast.Dict,)) else (n.stmt.value, n.id)
+      if isinstance(v, ast.DictComp) and len(v.generators) == 1 and \
+          sec_is(v.generators[0].iter, "fields") and \
+          text(v.key) == "%s.colRef.colId" % text(v.generators[0].target) and \
+          text(v.value) == text(v.generators[0].target):
+        maps.add(n.stmt.targets[0].id)
+  for nm_ in list(du.muts):
+    for m in cfg.nodes:
+      if m.stmt is not None and m.id not in du.muts[nm_] and any(
+          isinstance(y, ast.Name) and y.id == nm_ and isinstance(y.ctx, ast.Load)
+          for e_ in m.exprs if e_ is not None for y in ast.walk(e_)):
+        c2 = H.loop_as_comprehension(fn, du, rd, nm_, m.id)
+        if isinstance(c2, ast.DictComp) and sec_is(c2.generators[0].iter, "fields") and \
+            text(c2.key) == "%s.colRef.colId" % text(c2.generators[0].target):
+          maps.add(nm_)
+        break
+  if not maps:
+    raise AnalysisError("update_summary_section: map from a field's column id to the field not "
+                        "found")
+  keys = []
+  for x in ast.walk(fn.node):
+    if isinstance(x, ast.Subscript) and isinstance(x.value, ast.Name) and x.value.id in maps and \
+        isinstance(x.ctx, ast.Load):
+      keys.append((x.slice, x))
+    elif isinstance(x, ast.Compare) and len(x.ops) == 1 and isinstance(x.ops[0], (ast.In, ast.NotIn)) \
+        and isinstance(x.comparators[0], ast.Name) and x.comparators[0].id in maps:
+      keys.append((x.left, x))
+    elif isinstance(x, ast.Call) and isinstance(x.func, ast.Attribute) and x.func.attr == "get" \
+        and isinstance(x.func.value, ast.Name) and x.func.value.id in maps and x.args:
+      keys.append((x.args[0], x))
+  if not keys:
+    raise AnalysisError("update_summary_section: no look-up in the field map found")
+  seen = set()
+  for (k, site) in keys:
+    origins = id_origin(k, node_of(site))
+    bad_new, other = classify(origins)
+    label = "%s -> %s" % (short(site, 50), ", ".join(sorted(origins)))
+    if label in seen:
+      continue
+    seen.add(label)
+    if other and not bad_new:
+      raise AnalysisError("update_summary_section: cannot tell which columns the key of %s "
+                          "belongs to" % short(site, 60))
+    run.ob(R6, fn.qualname, "field looked up by %s" % short(k, 40),
+           "the map is keyed by the column id a field's column has in the OLD table, so the key "
+           "must be the id of a carried-over old column (a copied formula column may have got "
+           "another id in the new table)", not bad_new, fi=fn.fi, node=site,
+           witness=None if not bad_new else "key comes from the new table's columns %s"
+           % ", ".join(bad_new))
+
+
 U = "sandbox/grist/useractions.py"
 EN = "sandbox/grist/engine.py"
 DM = "sandbox/grist/docmodel.py"
@@ -638,6 +877,19 @@ VARIANTS = [(a, b, c, d, "C09-R1") for (a, b, c, d) in R1_VARIANTS] + [
    "C09-R3"),
   ("set-auto-remove-never-unmarks", DM,
    "    else:\n      self._auto_remove_set.discard(record)", "    else:\n      pass", "C09-R3"),
+  # R6
+  ("regrouped-fields-found-by-new-column-id", SM,
+   """    visible_formula = [(c, ci) for (c, ci) in zip(formula_columns, formula_colinfo)
+                       if ci.colId in colid_to_field_map]
+    visible_formula_columns = [c for (c, ci) in visible_formula]
+    formula_fields = [colid_to_field_map[ci.colId] for (c, ci) in visible_formula]
+""",
+   """    visible_formula_columns = [c for c in formula_columns if c.colId in colid_to_field_map]
+    formula_fields = [colid_to_field_map[c.colId] for c in visible_formula_columns]
+""", "C09-R6"),
+  ("regrouped-fields-kept-by-requested-groupby-ids", SM,
+   "    colid_keep_set = set(c.colId for c in prev_group_cols + formula_colinfo)",
+   "    colid_keep_set = groupby_colids | set(ci.colId for ci in formula_colinfo)", "C09-R6"),
   # R4
   ("summary-table-without-raw-section", SM,
    "        raw_section=True,\n        record_card_section=False)",
